@@ -133,6 +133,9 @@ def w_rcos(ctx, rng, i):
     edge = (1 + alpha) / (2 * T)
     n = int(rng.integers(3, 60))
     x = rng.uniform(-2.5 * edge, 2.5 * edge, n)
+    flat = (1 - alpha) / (2 * T)
+    x = np.concatenate([x, [edge * (1 + 1e-9), -edge * (1 + 1e-9), edge * (1 - 1e-9), flat * (1 - 1e-9), -flat * (1 + 1e-9), 0.0, edge * (1 + 10 ** rng.uniform(-8, -1))]])
+    n = x.size
     ctx.describe(T=T, alpha=alpha, n=n)
     with core.quiet():
         ya = U.rcos(x, alpha, T)
